@@ -36,6 +36,7 @@ def to_signed(v, bits):
 
 
 _sym_ctr = itertools.count()
+_frame_ctr = itertools.count(1)
 
 
 def fresh(prefix, bits):
@@ -91,7 +92,7 @@ class Obj:
 
 class Frame:
     __slots__ = ('fn', 'block', 'idx', 'regs', 'prev', 'allocas', 'visits', 'ret_dest', 'unwind_to',
-                 'normal_to', 'catch')
+                 'normal_to', 'catch', 'uid')
 
     def __init__(self, fn):
         self.fn = fn
@@ -105,6 +106,7 @@ class Frame:
         self.unwind_to = None
         self.normal_to = None
         self.catch = None
+        self.uid = next(_frame_ctr)
 
     def copy(self):
         f = Frame.__new__(Frame)
@@ -119,6 +121,7 @@ class Frame:
         f.unwind_to = self.unwind_to
         f.normal_to = self.normal_to
         f.catch = self.catch
+        f.uid = self.uid
         return f
 
 
@@ -182,6 +185,7 @@ class State:
         self.depth_guard = 0
         self.nforks = 0
         self.park_key = None
+        self.stop = None
 
     def fork(self):
         s = State.__new__(State)
@@ -212,6 +216,7 @@ class State:
         s.depth_guard = self.depth_guard
         s.nforks = self.nforks
         s.park_key = None
+        s.stop = self.stop
         return s
 
     # ---- objects
@@ -268,6 +273,51 @@ class Env:
         return None
 
 
+
+
+def compute_ipdom(fn):
+    """Immediate post-dominators of the blocks of `fn` (iterative data-flow on the reversed CFG)."""
+    succ = {}
+    for lab, blk in fn.blocks.items():
+        t = blk[-1]
+        if t.op == 'br':
+            succ[lab] = list(t.extra['targets'])
+        elif t.op == 'switch':
+            succ[lab] = [t.extra['default']] + [l for _, l in t.extra['cases']]
+        elif t.op == 'invoke':
+            succ[lab] = [t.extra['normal'], t.extra['unwind']]
+        else:
+            succ[lab] = []       # ret / unreachable / resume: to the virtual exit
+    EXIT = None
+    labs = list(fn.blocks)
+    allset = set(labs) | {EXIT}
+    pdom = {l: set(allset) for l in labs}
+    pdom[EXIT] = {EXIT}
+    changed = True
+    while changed:
+        changed = False
+        for l in reversed(labs):
+            ss = succ[l] or [EXIT]
+            new = None
+            for x in ss:
+                new = set(pdom[x]) if new is None else new & pdom[x]
+            new = (new or set()) | {l}
+            if new != pdom[l]:
+                pdom[l] = new
+                changed = True
+    ip = {}
+    for l in labs:
+        cands = pdom[l] - {l}
+        best = None
+        for c in cands:
+            if c is EXIT:
+                continue
+            if all(o in pdom[c] for o in cands if o != c):
+                best = c
+                break
+        ip[l] = best
+    return ip
+
 class Engine:
     def __init__(self, modules, loop_bound=10, max_steps=200000, unwind=False, max_paths=20000):
         self.modules = modules
@@ -279,6 +329,8 @@ class Engine:
         self.unwind = unwind
         self.solver = z3.Solver()
         self._pc_stack = []
+        self._ipdom_cache = {}
+        self.auto_merge = False
         self.nqueries = 0
         self.solver_time = 0.0
         self.func_addr = {}
@@ -901,38 +953,76 @@ class Engine:
         st.status = 'running'
         st.retval = None
         st.nsteps = 0
-        segment = [st]
         leaves = []
-        while segment:
-            work = segment
-            segment = []
-            parked = {}
-            while work:
-                s = work.pop()
-                try:
-                    forks = self.run(s)
-                except EngineError as e:
-                    # engine-level violation on a feasible path
-                    self.oblige(s, 'engine', None, e.kind, None, e.msg)
-                    s.status = 'engine-error'
-                    forks = None
-                if forks:
-                    self.stats['forks'] += len(forks) - 1
-                    for f_ in forks:
-                        f_.nforks += 1
-                    work.extend(forks)
-                elif s.status == 'parked':
-                    parked.setdefault(s.park_key, []).append(s)
-                else:
-                    leaves.append(s)
-                    self.stats['paths'] += 1
-                    if len(leaves) > self.max_paths:
-                        raise Unsupported('more than %d paths' % self.max_paths)
-            for key, group in parked.items():
-                for m in self.merge_states(group):
-                    m.status = 'running'
-                    segment.append(m)
+        import sys
+        if sys.getrecursionlimit() < 5000:
+            sys.setrecursionlimit(5000)
+        self._exec(st, None, leaves)
         return leaves
+
+    def _exec(self, st, stop, leaves):
+        """Run `st` and everything it forks into until each path is parked at `stop` or has terminated
+        (terminated paths are appended to `leaves`). With auto_merge the children of every fork are run
+        to the fork's join point (the immediate post-dominator of a branch, the next instruction for
+        value/outcome forks) and merged there, so paths do not multiply."""
+        parked = []
+        work = [st]
+        while work:
+            s = work.pop()
+            s.stop = stop
+            try:
+                site, forks = self.run(s)
+            except EngineError as e:
+                # engine-level violation on a feasible path
+                self.oblige(s, 'engine', None, e.kind, None, e.msg)
+                s.status = 'engine-error'
+                site, forks = None, None
+            if forks:
+                self.stats['forks'] += len(forks) - 1
+                for f_ in forks:
+                    f_.nforks += 1
+                join = self.join_for(site) if self.auto_merge else None
+                if join is None:
+                    work.extend(forks)
+                    continue
+                got = []
+                for c in forks:
+                    c.status = 'running' if c.status == 'parked' else c.status
+                    got.extend(self._exec(c, join, leaves))
+                for m in self.merge_states(got):
+                    m.status = 'running'
+                    work.append(m)
+            elif s.status == 'parked':
+                parked.append(s)
+            else:
+                leaves.append(s)
+                self.stats['paths'] += 1
+                if len(leaves) > self.max_paths:
+                    raise Unsupported('more than %d paths' % self.max_paths)
+        return parked
+
+    def join_for(self, site):
+        """Where do the children of a fork at `site` come together again?"""
+        uid, fn, block, idx, ins = site
+        if ins.op in ('br', 'switch'):
+            j = self.ipdom(fn, block)
+            if j is None:
+                return (uid, None, 'ret')
+            blk = fn.blocks[j]
+            k = 0
+            while k < len(blk) and blk[k].op == 'phi':
+                k += 1
+            return (uid, j, k)
+        if ins.op == 'invoke':
+            return None
+        return (uid, block, idx + 1)
+
+    def ipdom(self, fn, block):
+        """Immediate post-dominator of `block` in fn's CFG (None: only the function exit)."""
+        pd = self._ipdom_cache.get(fn.name)
+        if pd is None:
+            pd = self._ipdom_cache[fn.name] = compute_ipdom(fn)
+        return pd.get(block)
 
     # ------------------------------------------------------------------ state merging at verif_merge()
     def merge_states(self, group):
@@ -1012,7 +1102,9 @@ class Engine:
         base = states[0]
         ms = base.fork()
         ms.pc = list(base.pc[:k])
-        ms.pc.append(z3.Or(*conds))
+        disj = simp(z3.Or(*conds))
+        if not (isinstance(disj, int) and disj == 1):
+            ms.pc.append(as_bool(disj))
         # registers
         for fi, fr in enumerate(ms.frames):
             names = set()
@@ -1150,22 +1242,27 @@ class Engine:
         return ('z', v.get_id())
 
     def run(self, st):
-        """Run st until it terminates (return None) or forks (return list of states)."""
+        """Run st until it terminates or parks (returns (None, None)) or forks (returns (site, states))."""
         while st.status == 'running':
             fr = st.frames[-1]
+            stop = st.stop
+            if stop is not None and fr.uid == stop[0] and fr.block == stop[1] and fr.idx == stop[2]:
+                st.status = 'parked'
+                return None, None
             block = fr.fn.blocks[fr.block]
             ins = block[fr.idx]
+            site = (fr.uid, fr.fn, fr.block, fr.idx, ins)
             fr.idx += 1
             st.nsteps += 1
             self.stats['instrs'] += 1
             if st.nsteps > self.max_steps:
                 self.oblige(st, 'bound', None, 'max-steps', ins, 'step budget exhausted')
                 st.status = 'bound'
-                return None
+                return None, None
             r = self.step(st, fr, ins)
             if r is not None:
-                return r
-        return None
+                return site, r
+        return None, None
 
     def goto(self, st, fr, label, ins):
         ent = fr.visits.get(label)
@@ -1417,6 +1514,8 @@ class Engine:
             st.retval = rv
             return None
         caller = st.frames[-1]
+        if st.stop is not None and st.stop[0] == fr.uid and st.stop[2] == 'ret':
+            st.status = 'parked'
         if fr.catch is not None:
             caller.regs[fr.catch] = 0      # verif_try: the function returned normally
         elif fr.ret_dest is not None:
